@@ -22,9 +22,10 @@ ASSUMPTIONS = [
 ]
 REQUIRED_LABELS = {
     "quick": ["auth:legacy", "auth:segwit", "unauth", "v1", "dev:early", "dev:late", "dev:op",
-              "sig:bad", "multi-chunk-btc", "policy:all-1", "success", "history"],
+              "sig:bad", "multi-chunk-btc", "policy:all-1", "success", "history", "bip144"],
     "thorough": ["auth:legacy", "auth:segwit", "unauth", "v1", "dev:early", "dev:late",
                  "dev:op", "sig:bad", "multi-chunk-btc", "policy:all-1", "success", "history",
+                 "bip144",
                  "proof:255-nodes", "sig:0x31", "sig:trailing"],
 }
 
@@ -179,10 +180,15 @@ def check_btc(c, held_btc, ed):
                         % (held_btc[plen:].hex()[:200], edl, ed.hex()[:200]))
     utx = held_btc[7:plen]
     try:
-        v, ins, outs, lt = refs.parse_tx(utx)
+        v, ins, outs, lt, wit = refs.parse_tx_any(utx)
     except ValueError as e:
         raise Violation("btc-tx-undecodable", "device holds tx %s: %s" % (utx.hex()[:300], e))
-    tv, tins, touts, tlt = c["tx"]
+    tv, tins, touts, tlt = c["tx"][:4]
+    twit = [[bytes(i) for i in st_] for st_ in c["tx"][4]] if len(c["tx"]) > 4 else None
+    if wit != twit:
+        raise Violation("btc-tx-witness", "client's transaction carries witness stacks %r, the "
+                        "device holds %r" % (twit and [[i.hex() for i in s_] for s_ in twit][:3],
+                                             wit and [[i.hex() for i in s_] for s_ in wit][:3]))
     if v != tv or lt != tlt:
         raise Violation("btc-tx-version-locktime", "got %r/%r expected %r/%r" % (v, lt, tv, tlt))
     if [(o[0], bytes(o[1])) for o in outs] != [(o[0], o[1]) for o in touts]:
@@ -230,6 +236,7 @@ def run_one(c, w, p):
     mark = len(w.log)
     req = build_request(c)
     rep = mw.request(p, req)
+    mw.check_sim(w)
     if not isinstance(rep, dict) or type(rep.get("errorcode")) is not int:
         raise Violation("reply-shape", repr(rep)[:300])
     code = rep["errorcode"]
@@ -237,6 +244,8 @@ def run_one(c, w, p):
     labels = ["v1" if c["v1"] else "v5"]
     authorized = "tx" in c
     labels.append("auth:" + c["mode"] if authorized else "unauth")
+    if authorized and len(c["tx"]) > 4:
+        labels.append("bip144")
     if c["policy"] == [1]:
         labels.append("policy:all-1")
     if c["policy"] == [255]:
@@ -247,7 +256,16 @@ def run_one(c, w, p):
     early_hit = any(k.startswith("early:") for h in completed for k in h) or \
         (w.sign_st is not None and any(k.startswith("early:") for k in w.sign_st.held))
     dev_success = len(completed) == 1 and (w.sign_answer_op is None or w.sign_answer_op == 0x81)
-    sig_ok = c["sig"]["kind"] == "ok"
+    # the device's signature: well-formed DER (must be relayed), not a signature at all (r or s
+    # missing: nothing to relay), or an encoding slip that leaves r and s intact (wrong
+    # outer tag / length, wrong integer tag, bytes after the signature) - there the statement
+    # does not say whether the reply is a success, only what a success carries
+    sg = c["sig"]
+    if sg["kind"] == "ok":
+        sig_class = "lenient" if sg["trailing"] else "ok"
+    else:
+        sig_class = "bad" if sg["bad"] in ("truncated", "empty") else "lenient"
+    sig_ok = sig_class == "ok"
     should_succeed = dev_success and not early_hit and sig_ok
 
     # chunk discipline: never more than requested (the device would have refused), and the
@@ -264,7 +282,7 @@ def run_one(c, w, p):
     if dev:
         labels.append("dev:" + dev["kind"])
         nontrivial = True
-    if not sig_ok:
+    if sg["kind"] != "ok":
         labels.append("sig:bad")
         nontrivial = True
     else:
@@ -278,14 +296,15 @@ def run_one(c, w, p):
     if authorized and len(c["proof"]) >= 200:
         labels.append("proof:255-nodes" if len(c["proof"]) == 255 else "proof:big")
 
-    if should_succeed:
+    want_sig = {"r": c["sig"]["r"].hex(), "s": c["sig"]["s"].hex()}
+    if should_succeed or (sig_class == "lenient" and dev_success and not early_hit
+                          and code == 0):
         if code != 0:
             raise Violation("success-expected", "device consumed everything and reported "
                             "success but reply is %r" % (rep,))
-        want_sig = {"r": c["sig"]["r"].hex(), "s": c["sig"]["s"].hex()}
-        if rep.get("signature") != want_sig or set(rep) != {"errorcode", "signature"}:
+        if rep.get("signature") != want_sig:
             raise Violation("signature-mismatch", "reply %r expected %r" % (rep, want_sig))
-        labels.append("success")
+        labels.append("success" if should_succeed else "success:lenient-der")
     else:
         if code == 0 or "signature" in rep:
             raise Violation("success-without-full-consumption",
